@@ -134,6 +134,12 @@ def ensure_makefile() -> None:
     stamp.write_text(want)
 
 
+def _limit_mem() -> None:
+    # a runaway coqc (e.g. a conversion that blows up after a source change) must fail, not take the machine down
+    import resource
+    resource.setrlimit(resource.RLIMIT_AS, (24 << 30, 24 << 30))
+
+
 def coq_make(targets: list[str] | None = None, timeout: int = 1500, clean: bool = False) -> tuple[bool, str]:
     """Full .vo build (never -vos) of the given targets (default: everything), under a lock."""
     with Lock(".coq.lock"):
@@ -143,7 +149,7 @@ def coq_make(targets: list[str] | None = None, timeout: int = 1500, clean: bool 
             for p in COQ.rglob("*.vo"):
                 p.unlink()
         cmd = ["timeout", str(timeout), "make", f"-j{NCPU}", *(targets or [])]
-        p = subprocess.run(cmd, cwd=COQ, stdout=subprocess.PIPE, stderr=subprocess.STDOUT, text=True)
+        p = subprocess.run(cmd, cwd=COQ, stdout=subprocess.PIPE, stderr=subprocess.STDOUT, text=True, preexec_fn=_limit_mem)
         return p.returncode == 0, p.stdout
 
 
@@ -198,7 +204,7 @@ def props_assumptions(prop_file: str, timeout: int = 600) -> tuple[bool, list[di
     p = subprocess.run(["timeout", str(timeout), "coqc", "-Q", ".", "VF", "-w",
                         "-notation-overridden,-deprecated-hint-without-locality,-deprecated-instance-without-locality",
                         prop_file],
-                       cwd=COQ, stdout=subprocess.PIPE, stderr=subprocess.STDOUT, text=True)
+                       cwd=COQ, stdout=subprocess.PIPE, stderr=subprocess.STDOUT, text=True, preexec_fn=_limit_mem)
     ok = p.returncode == 0
     blocks = parse_assumptions(p.stdout)["_blocks"]
     out = []
@@ -262,7 +268,7 @@ def run_shards(prop: str, shards: list[str], imports: str, timeout: int = 600) -
 
     def one(f: Path):
         p = subprocess.run(["timeout", str(timeout), "coqc", "-Q", str(COQ), "VF", "-w", "-all", f.name], cwd=d,
-                           stdout=subprocess.PIPE, stderr=subprocess.STDOUT, text=True)
+                           stdout=subprocess.PIPE, stderr=subprocess.STDOUT, text=True, preexec_fn=_limit_mem)
         return p.returncode, p.stdout
 
     results: list[list[int]] = []
@@ -289,7 +295,7 @@ def coq_eval(prop: str, imports: str, body: str, timeout: int = 300) -> str:
     f = d / f"probe_{prop}_{os.getpid()}.v"
     f.write_text(SHARD_HEADER.format(imports=imports) + body)
     p = subprocess.run(["timeout", str(timeout), "coqc", "-Q", str(COQ), "VF", "-w", "-all", f.name], cwd=d,
-                       stdout=subprocess.PIPE, stderr=subprocess.STDOUT, text=True)
+                       stdout=subprocess.PIPE, stderr=subprocess.STDOUT, text=True, preexec_fn=_limit_mem)
     return p.stdout
 
 
